@@ -68,7 +68,8 @@ SameFileModStrings(f, g) ==
     /\ StringBag(f) = StringBag(g) /\ f.maxLen = g.maxLen /\ Len(f.blocks) = Len(g.blocks) /\ f.footer = g.footer
     /\ \A k \in 1..Len(f.blocks) : SameBlockModStrings(f, f.blocks[k], g, g.blocks[k])
 RepeatSaveViol(ev) ==
-    V(SameFileModStrings(ev.S0, ev.S1), "SaveAfterQueriesSameAsSaveBefore")
+    V(~ev.hasFirst \/ SameFileModStrings(ev.Sfirst, ev.S0), "SecondDefaultSaveSameAsFirst")
+    \cup V(SameFileModStrings(ev.S0, ev.S1), "SaveAfterQueriesSameAsSaveBefore")
     \cup V(SameFileModStrings(ev.S1, ev.S2), "SecondSaveSameAsFirst")
     \cup V(SameFileModStrings(ev.S2, ev.S3), "ThirdSaveSameAsSecond")
     \cup V(ev.q0 = ev.q1, "QueriesUnchangedByFirstSave")
